@@ -23,12 +23,13 @@ Definition proj (r : res (term * option N * N)) : uobs :=
 
 (* c_up = None: through the packager's dispatch; Some p: packer p's Unpack *)
 Record case := { c_h1 : henv; c_h2 : henv; c_E : wire -> wire -> wire; c_up : option packer;
-                 c_party : list N; c_obs : uobs }.
+                 c_party : list N; c_att : option (list attempt); c_obs : uobs }.
 
 Definition check_case (c : case) : bool :=
   match hpack (c_h1 c), hpack (c_h2 c) with
   | Ok w1, Ok w2 =>
       let E := c_E c w1 w2 in
+      match c_att c with Some l => attempts_eqb l (attempts Fixed (c_party c) E) | None => true end &&
       uobs_eqb (c_obs c) (proj (match c_up c with
                                 | None => unpack_pkgr Fixed (c_party c) E
                                 | Some p => unpack Fixed p (c_party c) E
